@@ -65,7 +65,8 @@ class Finder(ast.NodeVisitor):
         if self.depth and type(node.op) in BIN and not (
                 isinstance(node.left, ast.Constant) and
                 isinstance(node.left.value, str)):
-            self.sites.append(("bin", node.lineno, node.col_offset, 0))
+            self.sites.append(("bin", node.lineno, node.col_offset,
+                               type(node.op).__name__))
         self.generic_visit(node)
 
     def visit_AugAssign(self, node):
@@ -106,7 +107,8 @@ class Mutator(ast.NodeTransformer):
 
     def visit_Compare(self, node):
         self.generic_visit(node)
-        if self._hit(node, "cmp"):
+        if self._hit(node, "cmp") and self.site[3] < len(node.ops) and \
+                type(node.ops[self.site[3]]) in CMP:
             i = self.site[3]
             node.ops[i] = CMP[type(node.ops[i])]()
             self.done = True
@@ -114,7 +116,7 @@ class Mutator(ast.NodeTransformer):
 
     def visit_BinOp(self, node):
         self.generic_visit(node)
-        if self._hit(node, "bin"):
+        if self._hit(node, "bin") and type(node.op).__name__ == self.site[3]:
             node.op = BIN[type(node.op)]()
             self.done = True
         return node
